@@ -553,8 +553,8 @@ def r10_18(run, model):
             for m in S.find(f.body, "Match"):
                 for arm in m["arms"]:
                     pt = S.norm_ws(run.facts.text(file, arm["pat"]["sp"]))
-                    mm = re.search(r"\b(EUnary|EBinary)\{op\b", pt)
-                    if not mm:
+                    mm = re.search(r"\b(EUnary|EBinary)\{", pt)
+                    if not mm or "op" not in S.pat_bindings(arm["pat"]):
                         continue
                     kind = mm.group(1)
                     other = "EBinary" if kind == "EUnary" else "EUnary"
